@@ -79,6 +79,8 @@ func paRender(q paQuery) (string, []string) {
 		case "far": // the whole join clause lies beyond byte 512
 			pad := paCut + 8 - len(head)
 			text = head + strings.Repeat(" ", pad) + "join " + q.T2
+		case "vfar": // ... and beyond 64 KiB
+			text = head + strings.Repeat(" ", 70000) + "join " + q.T2
 		}
 		topics := []string{q.T1}
 		if q.T2 != q.T1 {
